@@ -99,7 +99,26 @@ Section Oracles.
     read_res m1 (main_try (Some m1) inp) = read_res m2 (main_try (Some m2) inp).
   Proof. exact (main_mode_independent S G o_resolve o_getcwd o_load_config o_configure_logging o_log_decision
                                       o_analyze o_gmatch o_words o_after_prep o_after_rule o_print). Qed.
+  (* the working directory the command is judged in: the payload's top-level cwd if truthy, else
+     tool_input.cwd if truthy, else the process's own - a function of the input alone (cwd_spec has no mode
+     argument), and main() under ANY mode is "that directory, then load_config and the rest on it".
+     (Together with C12_mode_independent, which holds for all load_config / analyze oracles - in particular for
+     ones that answer differently per directory - no mode can make the verdict come from another directory.) *)
+  Theorem C12_cwd_mode_independent : forall m kv,
+    find_cwd o_resolve o_getcwd (JObj kv) = cwd_spec o_resolve o_getcwd kv /\
+    main_try (Some m) (JObj kv) =
+      (cwd <- cwd_spec o_resolve o_getcwd kv ;;
+       match load_stage o_load_config o_configure_logging cwd with
+       | Raise (ConfigError msg) => lift m (config_error_outcome (JObj kv) msg)
+       | Raise e => Raise e
+       | Ok cfg => after_config o_log_decision o_analyze o_gmatch o_words o_after_prep o_after_rule o_print m (JObj kv) cfg cwd
+       end).
+  Proof. exact (fun m kv => conj
+      (find_cwd_spec o_resolve o_getcwd kv)
+      (main_try_cwd S G o_resolve o_getcwd o_load_config o_configure_logging o_log_decision o_analyze o_gmatch o_words
+                    o_after_prep o_after_rule o_print m kv)). Qed.
 End Oracles.
+Print Assumptions C12_cwd_mode_independent.
 Print Assumptions C12_mode_independent.
 Print Assumptions C12_factor.
 Print Assumptions C12_same.
@@ -125,6 +144,20 @@ Example C12_mode_degenerate :
   let inp := JObj [($"cwd", JStr $"/w")] in
   read_res Claude (demo_try (Some Claude) inp) = Ok [None] /\
   read_res Cursor (demo_try (Some Cursor) inp) = Ok [Some (Ask, $"empty command")].
+Proof. vm_compute. auto. Qed.
+
+(* non-vacuity for the cwd clause: load_config / analyze that answer per directory; the payload carries its
+   cwd only inside tool_input; every mode judges in /pay (allow), none in the process's /proc (deny) *)
+Definition demo_dir :=
+  @main_try unit unit (fun s => Ok s) (Ok $"/proc") (fun _ => Ok cfg0) (fun _ => Ok tt) (fun _ _ => Ok tt)
+     (fun _ _ cwd => if str_eqb cwd $"/pay" then Ok ($"allow", $"pay") else Ok ($"deny", $"proc"))
+     (fun _ _ => false) (fun _ => []) (fun _ _ _ => Ok tt) (fun _ _ _ _ => Ok false) (fun _ => Ok tt).
+Example C12_cwd_example :
+  let inp := JObj [($"tool_name", JStr $"Bash"); ($"tool_input", JObj [($"command", JStr $"probe"); ($"cwd", JStr $"/pay")])] in
+  read_res Claude (demo_dir (Some Claude) inp) = Ok [Some (Allow, $"pay")] /\
+  read_res Gemini (demo_dir (Some Gemini) inp) = Ok [Some (Allow, $"pay")] /\
+  read_res Cursor (demo_dir (Some Cursor) inp) = Ok [Some (Allow, $"pay")] /\
+  read_res Claude (demo_dir None inp) = Ok [Some (Allow, $"pay")].
 Proof. vm_compute. auto. Qed.
 
 (* non-vacuity: a command of each verdict class through the three shapes *)
